@@ -520,6 +520,156 @@ def value_leaves(c, e, depth=0):
     return [e]
 
 
+def field_sources(facts, struct_suffix, field):
+    """Every expression a field of a workspace struct is given, anywhere: `S { field: e, .. }` literals (shorthand included) and `x.field = e` assignments on a value of that type.
+    -> [(fn, expr)]; rules use it to read `self.field` as "one of these values" when the field is a cache of something computed at construction."""
+    out = []
+    for f in facts.body_fns():
+        if "::tests::" in f.def_ or "::test::" in f.def_:
+            continue
+        for x in fb.walk(f.body):
+            if x.get("k") == "struct" and fb.norm(x.get("def", "")).endswith(struct_suffix):
+                for fl in x.get("fields", []):
+                    if fl.get("name") == field:
+                        out.append((f, fl["e"]))
+            elif x.get("k") == "assign" and x["l"].get("k") == "field" and x["l"].get("name") == field and struct_suffix.split("::")[-1] in fb.norm(fb.tnorm(x["l"]["e"].get("ty") or "")):
+                out.append((f, x["r"]))
+    return out
+
+
+def delegates_to(f, callee_suffix):
+    """Is the whole body of `f` one call of `callee_suffix` that forwards f's own parameters, each once, in order (`fn insert(&mut self, k, c) { self.update(k, c) }`)?
+    Then whatever holds for every call of the callee holds for `f`."""
+    e = f.body
+    while e is not None and e.get("k") == "block":
+        stmts = [s_ for s_ in e.get("stmts", [])]
+        if e.get("e") is not None and not stmts:
+            e = e["e"]
+        elif e.get("e") is None and len(stmts) == 1:
+            e = stmts[0]
+            if e.get("k") == "semi":
+                e = e.get("e")
+        else:
+            return False
+    if e is None or e.get("k") not in ("call", "mcall") or not (fb.callee(e) or "").endswith(callee_suffix):
+        return False
+    args = ([e["recv"]] if e.get("k") == "mcall" else []) + list(e.get("args", []))
+    want = [lid for p in f.params for _n, lid in fb.pat_bindings(p["pat"])]
+    got = []
+    for a in args:
+        while a is not None and a.get("k") in ("addrof", "unary"):
+            a = a["e"]
+        if a is None or a.get("k") != "path" or a.get("res") != "local":
+            return False
+        got.append(a["id"])
+    return got == want
+
+
+_TRANSPARENT_STR = {"clone", "to_string", "to_owned", "as_str", "as_ref", "into", "to_string_lossy", "borrow", "deref", "as_path", "to_path_buf", "as_os_str", "into_owned", "display",
+                    "as_mut_str", "into_boxed_str", "into_string"}
+
+
+def _fmt_pieces(v):
+    """The compact encoding of a format string (as it reaches the facts: control bytes shown as `·`) -> list of literal runs and None for placeholders.  A `·` directly in
+    front of printable text is that run's length byte, the last `·` is the terminator, any other `·` is a placeholder."""
+    out, i, n = [], 0, len(v)
+    while i < n:
+        ch = v[i]
+        if ch != "\u00b7":
+            j = i
+            while j < n and v[j] != "\u00b7":
+                j += 1
+            out.append(v[i:j])
+            i = j
+            continue
+        if i == n - 1:
+            break                       # terminator
+        if v[i + 1] != "\u00b7":
+            i += 1                      # length byte of the run that follows
+            continue
+        out.append(None)
+        i += 1
+    return out
+
+
+def str_template(c, e, depth=0):
+    """What string does `e` build?  -> list of parts: literal text (str) or ("var", rendering) for anything that is not a literal.  Reads `format!` (placeholders filled with
+    their arguments, so `format!("{}.{}", key, "md")` = `format!("{}.md", key)`), string literals, value-transparent calls (`to_string`, `clone`, `as_str`, ..), `Path::join`
+    (parts separated by "/"), `a + b` / `[a, b].concat()` and locals bound by a plain `let`.  Adjacent literals are merged."""
+    def merge(parts):
+        out = []
+        for p in parts:
+            if isinstance(p, str) and out and isinstance(out[-1], str):
+                out[-1] += p
+            elif p != "":
+                out.append(p)
+        return out
+    if e is None or depth > 10:
+        return [("var", "?")]
+    k = e.get("k")
+    if k in ("addrof", "unary", "cast"):
+        return str_template(c, e["e"], depth + 1)
+    if k == "lit":
+        v = str(e.get("v", ""))
+        if v.startswith("s:"):
+            return [v[2:]]
+        return [("var", fb.show(e))]
+    if k == "block":
+        # the expansion of format!: { let args = (&a, &b); let args = [..]; { Arguments::new(<pieces>, &args) } }
+        tup = None
+        pieces = None
+        for y in fb.walk(e):
+            if y.get("k") == "let" and y.get("init") is not None and y["init"].get("k") == "tup" and tup is None:
+                tup = y["init"]
+            if y.get("k") == "call" and (fb.callee(y) or "").endswith(("Arguments::new", "Arguments::<'_>::new", "Arguments::new_const", "Arguments::from_str")) and y.get("args"):
+                a0 = y["args"][0]
+                while a0.get("k") in ("addrof", "unary"):
+                    a0 = a0["e"]
+                if a0.get("k") == "lit":
+                    pieces = str(a0.get("v", ""))
+        if pieces is not None:
+            txt = pieces.split(":", 1)[1] if ":" in pieces[:3] else pieces
+            parts, ai = [], 0
+            args = tup.get("es", []) if tup is not None else []
+            seq = _fmt_pieces(txt) if pieces.startswith("bs:") else [txt]
+            for p in seq:
+                if p is None:
+                    parts += str_template(c, args[ai], depth + 1) if ai < len(args) else [("var", "?")]
+                    ai += 1
+                else:
+                    parts.append(p)
+            return merge(parts)
+        if not e.get("stmts") and e.get("e") is not None:
+            return str_template(c, e["e"], depth + 1)
+        if e.get("e") is not None:
+            return str_template(c, e["e"], depth + 1)
+        return [("var", "?")]
+    if k == "call":
+        cal = fb.callee(e) or ""
+        if cal.endswith(("fmt::format", "hint::must_use", "String::from", "From::from", "ToString::to_string", "ToOwned::to_owned", "Into::into", "PathBuf::from", "Path::new", "Clone::clone")) and e.get("args"):
+            return str_template(c, e["args"][0], depth + 1)
+        return [("var", fb.show(e)[:40])]
+    if k == "mcall":
+        nm = e["name"]
+        if nm in _TRANSPARENT_STR:
+            return str_template(c, e["recv"], depth + 1)
+        if nm == "join" and len(e.get("args", [])) == 1 and "Path" in (fb.callee(e) or ""):
+            return merge(str_template(c, e["recv"], depth + 1) + ["/"] + str_template(c, e["args"][0], depth + 1))
+        if nm in ("with_extension", "with_file_name", "trim_end_matches", "strip_suffix", "replace"):
+            return [("var", fb.show(e)[:40])]
+        return [("var", fb.show(e)[:40])]
+    if k == "binary" and e.get("op") == "+":
+        return merge(str_template(c, e["l"], depth + 1) + str_template(c, e["r"], depth + 1))
+    if k == "path" and e.get("res") == "local":
+        b = c.binds.get(e["id"])
+        if b and b[0] == "expr" and len(b) > 2 and isinstance(b[2], dict) and b[2].get("k") == "p_bind" and "sub" not in b[2] and b[1] is not None:
+            return str_template(c, b[1], depth + 1)
+        if b and b[0] == "param":
+            return [("var", "P:" + str(b[2]))]
+        return [("var", e.get("name") or "?")]
+    return [("var", fb.show(e)[:40])]
+
+
 _RESULT_FORWARDERS = {"try_for_each", "try_fold", "map", "and_then", "map_err", "or_else", "collect", "try_collect", "sum", "inspect_err", "context", "with_context"}
 
 
